@@ -1,9 +1,9 @@
 """C20 rule set (see DESIGN.md section 5)."""
 from rules.agree import r20_1, r20_2, r20_3, r20_5, r04_1
-from rules.prefilter import r05_5
+from rules.prefilter import r05_5, r05_1, r05_2
 
 LEVEL = 'other'
-RULES = [('R20.1', r20_1), ('R20.2', r20_2), ('R20.3', r20_3), ('R20.5', r20_5), ('R04.1', r04_1), ('R05.5', r05_5)]
+RULES = [('R20.1', r20_1), ('R20.2', r20_2), ('R20.3', r20_3), ('R20.5', r20_5), ('R04.1', r04_1), ('R05.5', r05_5), ('R05.1', r05_1), ('R05.2', r05_2)]
 EXPLANATION = """R20.1 in build_trie the pattern id is PatternID::new(i) of the enumerate() index, pattern_lens.push(len) and the min/max updates happen
 once per pattern before any pruning exit, add_match(prev, pid) uses that pid. R20.2 provenance chains: each metadata getter of the three
 automata returns its namesake field; both converters initialise pattern_lens / match_kind / min_pattern_len / max_pattern_len / prefilter
@@ -12,7 +12,8 @@ stored fields. R20.3 at each of the six (Arc<dyn AcAutomaton>, AhoCorasickKind) 
 the variant; Some(kind) has an arm per variant and None goes to build_auto; the searcher literal stores the pair and the builder's
 start_kind. R20.5 the user-observable builder options reach every builder that reads them (match_kind, ascii_case_insensitive ->
 noncontiguous builder; start_kind -> self.start_kind and the DFA builder; kind -> self.kind). R04.1 forwarding impls (stream search
-sizes its buffer through them). R05.5 packed pattern ids stay aligned."""
+sizes its buffer through them). R05.5 packed pattern ids stay aligned. R05.1/R05.2 the only unwrap on the rare-byte offset is unreachable for patterns of 256+
+bytes (the builder is disabled first), a build-time panic premise."""
 NOT_DECIDED = """'Never panics for any collection within limits' (the build-time panic inventory R20.4 of the design was not built); paths with more than 127 transitions / 256 classes."""
 CLAIM = """Static decision of pattern-id assignment, metadata provenance chains across the three representations and the public getters, kind/type pairing at every construction site, and builder option plumbing."""
 NOTE = """Trusted: rustc MIR construction, the fact extractor. Build-time panic freedom is not decided."""
